@@ -37,9 +37,10 @@ YDOC11 = "# generated header\na: 1\nb: x\n"
 YDOC12 = "b: 2\nc: y\n"
 YDOC13 = "# h1\n# h2\n- [1, 2]\n- [3, 4]\n"
 YDOC14 = "- [5, 6]\n"
+YDOC15 = "t: [!cust 3, !cust 1, !cust 2, !other 2]\nu: !cust 5\nv: !cust 7\nb: [!cust b, !cust a]\na: !cust 1\ns: !cust str\n"
 YDOC5 = "y: *anc\n"      # alias without anchor: an error unless anchors leak from an earlier stream
 INPUTS = {
-    "yaml": [YDOC1, YDOC2, YDOC3, YDOC4, YDOC5, YDOC6, YDOC6, YDOC7, YDOC8, YDOC9, YDOC10, YDOC11, YDOC11, YDOC12, YDOC12, YDOC13, YDOC14, ""],
+    "yaml": [YDOC1, YDOC2, YDOC3, YDOC4, YDOC5, YDOC6, YDOC6, YDOC7, YDOC8, YDOC9, YDOC10, YDOC11, YDOC11, YDOC12, YDOC12, YDOC13, YDOC14, YDOC15, YDOC15, ""],
     "json": ['{"a": 1, "b": [2, 1], "c": {"y": 1, "x": 2}, "s": "j"}', '{"a": 5, "b": [], "c": {}, "s": ""} {"a": 6, "b": [1], "c": {"q": 1}, "s": "k"}', '{"a": 1} {bad'],
     "xml": ["<r><a>1</a><b>x</b><b>y</b><c><y>1</y></c><s>t</s></r>", "<?xml version=\"1.0\"?>\n<!-- c -->\n<a>2</a>", "<a>1</a><b>"],
     "props": ["a = 1\nb.0 = x\nc.y = 2\ns = p\n", "# c\na=2\n"],
@@ -58,6 +59,8 @@ EXPRS = [
     ".c | to_yaml | from_yaml", "explode(.)", "... comments=\"\"", ".b | reverse", ".b | unique", ".. style=\"flow\"",
     "(.b | sort) as $s | $s", ".b | sort | .[0]", "document_index", "reduce .b[] as $i (0; . + 1)", ".x.p",
     ".b[] as $i ireduce (0; . + 1)", ".a | | .b",
+    # custom-tagged scalars through sort / compare / arithmetic (tag guessing)
+    ".t | sort", ".t | unique", ".u + .v", ".u < .v", ".t | sort_by(.) | .[0]", ".u * 2", ".t | max", "[.t[] | . + 1]", ".u == .v", ".t | group_by(.)",
     # in-place updates of literals / accumulators that live in the parsed tree
     ".sum = (.n[] as $i ireduce (0; . += $i))", ".n[] as $i ireduce (0; . += $i)", ".a as $v | (0 | . += $v)",
     ".k = (1 | . *= 2)", "with(.k; . = (3 | . -= 1))", ".k = (.a as $v | (100 | . -= $v))",
@@ -80,6 +83,14 @@ GENERIC = [".", ".a", ".a, .s", "keys", "to_entries", ".s | envsubst(ne)", "with
 LOADS = [("load(\"%s\").a", "ld1.yml", "a: L1\n"), ("load(\"%s\").a", "ld2.yml", "a: L2\n---\na: L2b\n"),
          ("load_xml(\"%s\")", "ld1.xml", "<q>1</q>"), ("load_props(\"%s\")", "ld1.properties", "k = v\n"),
          ("load_base64(\"%s\")", "ld1.b64", "aGk="), ("load_str(\"%s\")", "ld1.txt", "txt\n")]
+# values loaded from a file and then UPDATED in place: every evaluation must see the file as it is on disk
+LOAD_UPDATES = [("load(\"%s\") | .replicas += 1", "ldu.yml", "replicas: 1\nname: base\nl: [1]\n"),
+                ("load(\"%s\") | .l += [.replicas]", "ldu.yml", None), ("load(\"%s\") | .name |= . + \"!\"", "ldu.yml", None),
+                (".a = (load(\"%s\") | .replicas *= 3 | .replicas)", "ldu.yml", None), ("load(\"%s\") * . | .replicas += 1", "ldu.yml", None),
+                (".[] |= (load(\"%s\") | .replicas += 1 | .replicas)", "ldu.yml", None), ("load(\"%s\") | del(.name) | keys", "ldu.yml", None),
+                ("load(\"%s\") | .[0].k += 1", "ldm.yml", "k: 1\n---\nk: 5\n"), ("load(\"%s\") | .[1] |= . * {\"z\": 1}", "ldm.yml", None),
+                ("load_props(\"%s\") | .k |= . + \"x\"", "ldu.properties", "k = v\n"), ("load_xml(\"%s\") | .q.r += 1", "ldu.xml", "<q><r>1</r></q>"),
+                ("load_str(\"%s\") | . += \"y\"", "ldu.txt", "txt"), ("load_base64(\"%s\") | . += \"y\"", "ldu.b64", "aGk=")]
 OUTS = ["yaml", "yaml", "json", "props", "xml", "xml", "lua", "shell", "csv", "tsv", "toml"]
 
 
@@ -108,6 +119,13 @@ class Pool:
             with open(p, "w") as f:
                 f.write(content)
             self.load_exprs.append(pat % p)
+        self.load_updates = []
+        for pat, name, content in LOAD_UPDATES:
+            p = os.path.join(loaddir, name)
+            if content is not None:
+                with open(p, "w") as f:
+                    f.write(content)
+            self.load_updates.append(pat % p)
 
     def eid(self, expr, all_, out):
         k = (expr, all_, out)
@@ -127,8 +145,10 @@ def gen_step(rng, pool):
     fmt = rng.choice(["yaml", "yaml", "yaml", "json", "xml", "props", "csv", "toml", "toml", "lua", "base64", "uri"])
     text = rng.choice(INPUTS[fmt])
     r = rng.random()
-    if r < 0.12:
+    if r < 0.06:
         expr = rng.choice(pool.load_exprs)
+    elif r < 0.16:
+        expr = rng.choice(pool.load_updates)
     elif fmt in ("base64", "uri"):
         expr = rng.choice([".", ". | length", ".", "with(envsubst)"])
     elif fmt in ("xml", "props", "csv", "toml", "lua"):
@@ -270,7 +290,9 @@ def check_history(chk, base, pool, steps, outs, descs):
                 if e is not None and out == e[0]:
                     kind = "decoder-init-finished"
             elif s["reuse_dec"] and dk in used and s["in"] == "yaml" and s["all"]:
-                kind = "yaml-firstfile-reuse"
+                pb = base.get(s["expr"], s["input"], s["in"], s["out"], s["all"], eff_pf, primed=True)
+                if pb is not None and (out, err) == pb:       # exactly what a decoder with firstFile = false yields
+                    kind = "yaml-firstfile-reuse"
             problems.append((i, kind, {"got": [out.decode("utf-8", "replace"), err], "fresh": [b[0].decode("utf-8", "replace"), b[1]]}))
         # (a) correspondence with the model's descriptor
         if descs is not None:
@@ -494,6 +516,8 @@ def run(chk):
     for of in ("csv", "tsv"):
         fixed.append([st(".", YDOC13, out=of, reuse_enc=True, reuse_tree=False), st(".", YDOC14, out=of, reuse_enc=True, reuse_tree=False),
                       st(".", YDOC13, out=of, reuse_enc=True, reuse_tree=False)])
+    for e in pool.load_updates:
+        fixed.append([st(e, YDOC6, reuse_tree=False), st(e, YDOC6, reuse_tree=False), st(e, YDOC7, reuse_tree=True), st(e, YDOC7, reuse_tree=True, all=True)])
     histories = list(fixed)
 
     def targeted():
